@@ -208,6 +208,13 @@ Definition run_C18T (s : sexp) : sexp :=
       L [match r with CBool b => L [A 0%Z; sB b] | CAborted => L [A 2%Z] end; A (Z.of_nat n); sStr (confirm_text inter question d)]
     | _, _, _, _, _ => sBad
     end
+  | L [A 13%Z; question; inter; d; ci; prefix; script] =>
+    match dStr question, dB inter, dB d, dB ci, dStr prefix, dList dStr script with
+    | Some question, Some inter, Some d, Some ci, Some prefix, Some script =>
+      let '(r, n) := ask_confirm_g ci inter d prefix script in
+      L [match r with CBool b => L [A 0%Z; sB b] | CAborted => L [A 2%Z] end; A (Z.of_nat n); sStr (confirm_text inter question d)]
+    | _, _, _, _, _, _ => sBad
+    end
   | L [A 12%Z; question; inter; dflt; acc; att; script] =>
     match dStr question, dB inter, dOpt dStr dflt, dOpt (dList dStr) acc, dOpt dN att, dList dStr script with
     | Some question, Some inter, Some dflt, Some acc, Some att, Some script =>
